@@ -15,7 +15,7 @@ open Py65 Py65.Gen Py65.Spec Py65.Proofs
 
 /-- Opcodes whose handler theorem is not proved yet (the differential check still covers them).
 When this list is empty `C01_partial` is the full property. -/
-def unproved : List Int := [0x26, 0x2a, 0x2e, 0x36, 0x3e, 0x61, 0x65, 0x66, 0x69, 0x6a, 0x6d, 0x6e, 0x71, 0x75, 0x76, 0x79, 0x7d, 0x7e, 0xe1, 0xe5, 0xe9, 0xed, 0xf1, 0xf5, 0xf9, 0xfd]
+def unproved : List Int := []
 
 /-- The full statement of C01: for every documented opcode and every well-formed state (any
 registers, flags, PC, memory contents), one `step()` of the generated model of the real device
@@ -32,6 +32,7 @@ def Statement : Prop :=
 theorem C01_partial (s : St) (hs : WF dev6502.cfg s) (hw : s.waiting = false)
     (mn : Mn) (mo : Mode) (hd : decode .nmos (s.mem s.pc) = some (mn, mo))
     (hproved : s.mem s.pc ∉ unproved)
+    (hdec : (mn = .ADC ∨ mn = .SBC) → flag s.p bitD = false)
     (hjsr : mn = .JSR → NoSelfOverwriteJSR dev6502.cfg (afterFetch dev6502.cfg dev6502.tbl s)) :
     abs (dev6502.step s) = Spec.step 8 .nmos (abs s) := by
   have hc : IsDev dev6502.cfg := Or.inl rfl
@@ -64,21 +65,21 @@ theorem C01_partial (s : St) (hs : WF dev6502.cfg s) (hw : s.waiting = false)
   · exact step_case _ hc _ .nmos s hs hw _ _ _ _ (fun _ => True) hop hd dev6502.instruct_21 ((H.h21 _ hc .nmos).toP _) trivial
   · exact step_case _ hc _ .nmos s hs hw _ _ _ _ (fun _ => True) hop hd dev6502.instruct_24 ((H.h24 _ hc .nmos).toP _) trivial
   · exact step_case _ hc _ .nmos s hs hw _ _ _ _ (fun _ => True) hop hd dev6502.instruct_25 ((H.h25 _ hc .nmos).toP _) trivial
-  · exact absurd (by decide) hproved
+  · exact step_case _ hc _ .nmos s hs hw _ _ _ _ (fun _ => True) hop hd dev6502.instruct_26 ((H.h26 _ hc .nmos).toP _) trivial
   · exact step_case _ hc _ .nmos s hs hw _ _ _ _ (fun _ => True) hop hd dev6502.instruct_28 ((H.h28 _ hc .nmos).toP _) trivial
   · exact step_case _ hc _ .nmos s hs hw _ _ _ _ (fun _ => True) hop hd dev6502.instruct_29 ((H.h29 _ hc .nmos).toP _) trivial
-  · exact absurd (by decide) hproved
+  · exact step_case _ hc _ .nmos s hs hw _ _ _ _ (fun _ => True) hop hd dev6502.instruct_2a ((H.h2a _ hc .nmos).toP _) trivial
   · exact step_case _ hc _ .nmos s hs hw _ _ _ _ (fun _ => True) hop hd dev6502.instruct_2c ((H.h2c _ hc .nmos).toP _) trivial
   · exact step_case _ hc _ .nmos s hs hw _ _ _ _ (fun _ => True) hop hd dev6502.instruct_2d ((H.h2d _ hc .nmos).toP _) trivial
-  · exact absurd (by decide) hproved
+  · exact step_case _ hc _ .nmos s hs hw _ _ _ _ (fun _ => True) hop hd dev6502.instruct_2e ((H.h2e _ hc .nmos).toP _) trivial
   · exact step_case _ hc _ .nmos s hs hw _ _ _ _ (fun _ => True) hop hd dev6502.instruct_30 ((H.h30 _ hc .nmos).toP _) trivial
   · exact step_case _ hc _ .nmos s hs hw _ _ _ _ (fun _ => True) hop hd dev6502.instruct_31 ((H.h31 _ hc .nmos).toP _) trivial
   · exact step_case _ hc _ .nmos s hs hw _ _ _ _ (fun _ => True) hop hd dev6502.instruct_35 ((H.h35 _ hc .nmos).toP _) trivial
-  · exact absurd (by decide) hproved
+  · exact step_case _ hc _ .nmos s hs hw _ _ _ _ (fun _ => True) hop hd dev6502.instruct_36 ((H.h36 _ hc .nmos).toP _) trivial
   · exact step_case _ hc _ .nmos s hs hw _ _ _ _ (fun _ => True) hop hd dev6502.instruct_38 ((H.h38 _ hc .nmos).toP _) trivial
   · exact step_case _ hc _ .nmos s hs hw _ _ _ _ (fun _ => True) hop hd dev6502.instruct_39 ((H.h39 _ hc .nmos).toP _) trivial
   · exact step_case _ hc _ .nmos s hs hw _ _ _ _ (fun _ => True) hop hd dev6502.instruct_3d ((H.h3d _ hc .nmos).toP _) trivial
-  · exact absurd (by decide) hproved
+  · exact step_case _ hc _ .nmos s hs hw _ _ _ _ (fun _ => True) hop hd dev6502.instruct_3e ((H.h3e _ hc .nmos).toP _) trivial
   · exact step_case _ hc _ .nmos s hs hw _ _ _ _ (fun _ => True) hop hd dev6502.instruct_40 ((H.h40 _ hc .nmos).toP _) trivial
   · exact step_case _ hc _ .nmos s hs hw _ _ _ _ (fun _ => True) hop hd dev6502.instruct_41 ((H.h41 _ hc .nmos).toP _) trivial
   · exact step_case _ hc _ .nmos s hs hw _ _ _ _ (fun _ => True) hop hd dev6502.instruct_45 ((H.h45 _ hc .nmos).toP _) trivial
@@ -98,23 +99,23 @@ theorem C01_partial (s : St) (hs : WF dev6502.cfg s) (hw : s.waiting = false)
   · exact step_case _ hc _ .nmos s hs hw _ _ _ _ (fun _ => True) hop hd dev6502.instruct_5d ((H.h5d _ hc .nmos).toP _) trivial
   · exact step_case _ hc _ .nmos s hs hw _ _ _ _ (fun _ => True) hop hd dev6502.instruct_5e ((H.h5e _ hc .nmos).toP _) trivial
   · exact step_case _ hc _ .nmos s hs hw _ _ _ _ (fun _ => True) hop hd dev6502.instruct_60 ((H.h60 _ hc .nmos).toP _) trivial
-  · exact absurd (by decide) hproved
-  · exact absurd (by decide) hproved
-  · exact absurd (by decide) hproved
+  · exact step_case _ hc _ .nmos s hs hw _ _ _ _ _ hop hd dev6502.instruct_61 (H.h61 _ hc .nmos) (hdec (Or.inl rfl))
+  · exact step_case _ hc _ .nmos s hs hw _ _ _ _ _ hop hd dev6502.instruct_65 (H.h65 _ hc .nmos) (hdec (Or.inl rfl))
+  · exact step_case _ hc _ .nmos s hs hw _ _ _ _ (fun _ => True) hop hd dev6502.instruct_66 ((H.h66 _ hc .nmos).toP _) trivial
   · exact step_case _ hc _ .nmos s hs hw _ _ _ _ (fun _ => True) hop hd dev6502.instruct_68 ((H.h68 _ hc .nmos).toP _) trivial
-  · exact absurd (by decide) hproved
-  · exact absurd (by decide) hproved
+  · exact step_case _ hc _ .nmos s hs hw _ _ _ _ _ hop hd dev6502.instruct_69 (H.h69 _ hc .nmos) (hdec (Or.inl rfl))
+  · exact step_case _ hc _ .nmos s hs hw _ _ _ _ (fun _ => True) hop hd dev6502.instruct_6a ((H.h6a _ hc .nmos).toP _) trivial
   · exact step_case _ hc _ .nmos s hs hw _ _ _ _ (fun _ => True) hop hd dev6502.instruct_6c ((H.h6c _ hc).toP _) trivial
-  · exact absurd (by decide) hproved
-  · exact absurd (by decide) hproved
+  · exact step_case _ hc _ .nmos s hs hw _ _ _ _ _ hop hd dev6502.instruct_6d (H.h6d _ hc .nmos) (hdec (Or.inl rfl))
+  · exact step_case _ hc _ .nmos s hs hw _ _ _ _ (fun _ => True) hop hd dev6502.instruct_6e ((H.h6e _ hc .nmos).toP _) trivial
   · exact step_case _ hc _ .nmos s hs hw _ _ _ _ (fun _ => True) hop hd dev6502.instruct_70 ((H.h70 _ hc .nmos).toP _) trivial
-  · exact absurd (by decide) hproved
-  · exact absurd (by decide) hproved
-  · exact absurd (by decide) hproved
+  · exact step_case _ hc _ .nmos s hs hw _ _ _ _ _ hop hd dev6502.instruct_71 (H.h71 _ hc .nmos) (hdec (Or.inl rfl))
+  · exact step_case _ hc _ .nmos s hs hw _ _ _ _ _ hop hd dev6502.instruct_75 (H.h75 _ hc .nmos) (hdec (Or.inl rfl))
+  · exact step_case _ hc _ .nmos s hs hw _ _ _ _ (fun _ => True) hop hd dev6502.instruct_76 ((H.h76 _ hc .nmos).toP _) trivial
   · exact step_case _ hc _ .nmos s hs hw _ _ _ _ (fun _ => True) hop hd dev6502.instruct_78 ((H.h78 _ hc .nmos).toP _) trivial
-  · exact absurd (by decide) hproved
-  · exact absurd (by decide) hproved
-  · exact absurd (by decide) hproved
+  · exact step_case _ hc _ .nmos s hs hw _ _ _ _ _ hop hd dev6502.instruct_79 (H.h79 _ hc .nmos) (hdec (Or.inl rfl))
+  · exact step_case _ hc _ .nmos s hs hw _ _ _ _ _ hop hd dev6502.instruct_7d (H.h7d _ hc .nmos) (hdec (Or.inl rfl))
+  · exact step_case _ hc _ .nmos s hs hw _ _ _ _ (fun _ => True) hop hd dev6502.instruct_7e ((H.h7e _ hc .nmos).toP _) trivial
   · exact step_case _ hc _ .nmos s hs hw _ _ _ _ (fun _ => True) hop hd dev6502.instruct_81 ((H.h81 _ hc .nmos).toP _) trivial
   · exact step_case _ hc _ .nmos s hs hw _ _ _ _ (fun _ => True) hop hd dev6502.instruct_84 ((H.h84 _ hc .nmos).toP _) trivial
   · exact step_case _ hc _ .nmos s hs hw _ _ _ _ (fun _ => True) hop hd dev6502.instruct_85 ((H.h85 _ hc .nmos).toP _) trivial
@@ -176,24 +177,28 @@ theorem C01_partial (s : St) (hs : WF dev6502.cfg s) (hw : s.waiting = false)
   · exact step_case _ hc _ .nmos s hs hw _ _ _ _ (fun _ => True) hop hd dev6502.instruct_dd ((H.hdd _ hc .nmos).toP _) trivial
   · exact step_case _ hc _ .nmos s hs hw _ _ _ _ (fun _ => True) hop hd dev6502.instruct_de ((H.hde _ hc .nmos).toP _) trivial
   · exact step_case _ hc _ .nmos s hs hw _ _ _ _ (fun _ => True) hop hd dev6502.instruct_e0 ((H.he0 _ hc .nmos).toP _) trivial
-  · exact absurd (by decide) hproved
+  · exact step_case _ hc _ .nmos s hs hw _ _ _ _ _ hop hd dev6502.instruct_e1 (H.he1 _ hc .nmos) (hdec (Or.inr rfl))
   · exact step_case _ hc _ .nmos s hs hw _ _ _ _ (fun _ => True) hop hd dev6502.instruct_e4 ((H.he4 _ hc .nmos).toP _) trivial
-  · exact absurd (by decide) hproved
+  · exact step_case _ hc _ .nmos s hs hw _ _ _ _ _ hop hd dev6502.instruct_e5 (H.he5 _ hc .nmos) (hdec (Or.inr rfl))
   · exact step_case _ hc _ .nmos s hs hw _ _ _ _ (fun _ => True) hop hd dev6502.instruct_e6 ((H.he6 _ hc .nmos).toP _) trivial
   · exact step_case _ hc _ .nmos s hs hw _ _ _ _ (fun _ => True) hop hd dev6502.instruct_e8 ((H.he8 _ hc .nmos).toP _) trivial
-  · exact absurd (by decide) hproved
+  · exact step_case _ hc _ .nmos s hs hw _ _ _ _ _ hop hd dev6502.instruct_e9 (H.he9 _ hc .nmos) (hdec (Or.inr rfl))
   · exact step_case _ hc _ .nmos s hs hw _ _ _ _ (fun _ => True) hop hd dev6502.instruct_ea ((H.hea _ hc .nmos).toP _) trivial
   · exact step_case _ hc _ .nmos s hs hw _ _ _ _ (fun _ => True) hop hd dev6502.instruct_ec ((H.hec _ hc .nmos).toP _) trivial
-  · exact absurd (by decide) hproved
+  · exact step_case _ hc _ .nmos s hs hw _ _ _ _ _ hop hd dev6502.instruct_ed (H.hed _ hc .nmos) (hdec (Or.inr rfl))
   · exact step_case _ hc _ .nmos s hs hw _ _ _ _ (fun _ => True) hop hd dev6502.instruct_ee ((H.hee _ hc .nmos).toP _) trivial
   · exact step_case _ hc _ .nmos s hs hw _ _ _ _ (fun _ => True) hop hd dev6502.instruct_f0 ((H.hf0 _ hc .nmos).toP _) trivial
-  · exact absurd (by decide) hproved
-  · exact absurd (by decide) hproved
+  · exact step_case _ hc _ .nmos s hs hw _ _ _ _ _ hop hd dev6502.instruct_f1 (H.hf1 _ hc .nmos) (hdec (Or.inr rfl))
+  · exact step_case _ hc _ .nmos s hs hw _ _ _ _ _ hop hd dev6502.instruct_f5 (H.hf5 _ hc .nmos) (hdec (Or.inr rfl))
   · exact step_case _ hc _ .nmos s hs hw _ _ _ _ (fun _ => True) hop hd dev6502.instruct_f6 ((H.hf6 _ hc .nmos).toP _) trivial
   · exact step_case _ hc _ .nmos s hs hw _ _ _ _ (fun _ => True) hop hd dev6502.instruct_f8 ((H.hf8 _ hc .nmos).toP _) trivial
-  · exact absurd (by decide) hproved
-  · exact absurd (by decide) hproved
+  · exact step_case _ hc _ .nmos s hs hw _ _ _ _ _ hop hd dev6502.instruct_f9 (H.hf9 _ hc .nmos) (hdec (Or.inr rfl))
+  · exact step_case _ hc _ .nmos s hs hw _ _ _ _ _ hop hd dev6502.instruct_fd (H.hfd _ hc .nmos) (hdec (Or.inr rfl))
   · exact step_case _ hc _ .nmos s hs hw _ _ _ _ (fun _ => True) hop hd dev6502.instruct_fe ((H.hfe _ hc .nmos).toP _) trivial
+
+/-- C01 in full: `unproved` is empty, so the partial theorem is the statement. -/
+theorem C01_full : Statement := fun s hs hw mn mo hd hdec hjsr =>
+  C01_partial s hs hw mn mo hd (by simp [unproved]) hdec hjsr
 
 /-- Non-vacuity: a concrete well-formed state executing LDA #$80 satisfies every hypothesis. -/
 example : ∃ s : St, WF dev6502.cfg s ∧ s.waiting = false ∧
